@@ -62,4 +62,9 @@ theorem history_refines_from (a : Cx.Driver.Sha3.Alg) (r : Nat) (sfx : List Bool
     Cx.Driver.Sha3.runImpl a ops (engine_of r cur) (st.map (engine_of r)) out
       = some (Cx.Driver.Sha3.runSpec a ops cur st out) := run_refines ok ops cur st out
 
+/-- protocol level: for each of the eight algorithms and EVERY request line `hctx.<alg> <program>` the code-shaped
+    model and the abstract machine over "bytes since last reset" give the same answer line -/
+theorem hctx_lines_agree (a : Cx.Driver.Sha3.Alg) (ha : a ∈ Cx.Driver.Sha3.algs) (args : List String) :
+    Cx.Driver.Sha3.hctxImpl a args = Cx.Driver.Sha3.hctxSpec a args := driver_hctx_agree a ha args
+
 end Cx.Props.C02
